@@ -130,10 +130,66 @@ def run_matrix(pairs: list[tuple[dict, str]], jobs: int = 16) -> list[dict]:
     return results
 
 
+def combined_canary(dest: Path, repo: Path = REPO) -> list[dict]:
+    """One tree carrying every canary edit whose anchors exist (quick tier: one extra analysis for all properties)."""
+    cat = [m for m in load_catalogue() if m.get("canary")]
+    src = repo / "src"
+    shutil.copytree(src, dest / "src", ignore=shutil.ignore_patterns("__pycache__", "*.pyc"))
+    applied = []
+    for mut in cat:
+        texts = {}
+        ok = True
+        for rel, find, repl in mut["edits"]:
+            p = dest / PKG_REL / rel
+            s = texts.get(p, p.read_text() if p.exists() else "")
+            if s.count(find) != 1:
+                ok = False
+                break
+            s2 = s.replace(find, repl)
+            try:
+                ast.parse(s2)
+            except SyntaxError:
+                ok = False
+                break
+            texts[p] = s2
+        if ok:
+            for p, s in texts.items():
+                p.write_text(s)
+            applied.append(mut)
+    return applied
+
+
+def run_quick(prop: str, chk) -> None:
+    tmp = Path(tempfile.mkdtemp(prefix="vsa-c-"))
+    try:
+        applied = combined_canary(tmp)
+        mine = [m for m in applied if prop in m["rules"]]
+        skipped = [m["id"] for m in load_catalogue() if m.get("canary") and prop in m["rules"] and m not in applied]
+        if not mine:
+            chk.notes["canary"] = {"variants": 0, "skipped_anchor_missing": skipped}
+            return
+        code, out = run_check(prop, tmp)
+        got = rules_reported(out)
+        res = []
+        fails = []
+        for m in mine:
+            want = set(m["rules"][prop])
+            hit = sorted(want & got)
+            res.append({"canary": m["id"], "expected_rules": sorted(want), "fired": hit})
+            if not hit:
+                fails.append(f"{m['id']}: none of {sorted(want)} fired on the canary tree (exit {code}; fired: {sorted(got)})")
+        chk.notes["canary"] = {"tree": "all canary edits applied to one scratch copy of /repo/src", "variants": len(mine), "results": res, "skipped_anchor_missing": skipped}
+        if fails:
+            raise AnalysisError("canary self-test failed (a rule that must fire stayed silent): " + "; ".join(fails))
+    finally:
+        shutil.rmtree(tmp, ignore_errors=True)
+
+
 def run_for(prop: str, tier: str, chk, seed: int) -> None:
     cat = load_catalogue()
     if tier == "quick":
-        mine = [m for m in cat if m.get("canary") and prop in m["props"]]
+        run_quick(prop, chk)
+        return
     else:
         mine = [m for m in cat if (m["kind"] == "break" and prop in m["props"]) or m["kind"] == "preserve"]
     if not mine:
